@@ -66,11 +66,24 @@ func vpGenOptInt(name string) *int64 {
 // conditions: absent, or 1..maxKeys keys (pairwise distinct names) each with
 // 0..maxList values.
 func vpGenFilter(name string, maxList, maxKeys int, withLimit bool) *ReqFilter {
+	return vpGenFilterX(name, maxList, maxKeys, withLimit, false)
+}
+
+// vpGenFilterX: with emptyTagMap one more shape is generated: a non-nil, empty Tags map.
+func vpGenFilterX(name string, maxList, maxKeys int, withLimit, emptyTagMap bool) *ReqFilter {
 	f := &ReqFilter{}
 	f.IDs = vpGenStrList(name+".ids", maxList)
 	f.Authors = vpGenStrList(name+".authors", maxList)
 	f.Kinds = vpGenIntList(name+".kinds", maxList)
-	nk := vpChoice(name+".ntagkeys", maxKeys+1)
+	nshapes := maxKeys + 1
+	if emptyTagMap {
+		nshapes++
+	}
+	nk := vpChoice(name+".ntagkeys", nshapes)
+	if nk == maxKeys+1 {
+		f.Tags = map[string][]string{}
+		nk = 0
+	}
 	if nk > 0 {
 		f.Tags = map[string][]string{}
 		var names []string
@@ -150,3 +163,62 @@ func specMatchAny(fs []*ReqFilter, e *Event) bool {
 }
 
 func vpB2I(b bool) int64 { return vpIteInt64(b, 1, 0) }
+
+// vpGenFilterFocused: a reduced family of filter shapes for the quick tier:
+// (0) no selective condition, every subset of since/until/limit; (1) one
+// selective condition with one value, with nothing / limit / since+until;
+// (2) one empty list or an empty tag map; (3) two selective conditions.
+func vpGenFilterFocused(name string) *ReqFilter {
+	f := &ReqFilter{}
+	sel := func(k int) {
+		switch k {
+		case 0:
+			f.IDs = []string{vpSym1(name + ".id")}
+		case 1:
+			f.Authors = []string{vpSym1(name + ".author")}
+		case 2:
+			f.Kinds = []int64{vpInt64(name + ".kind")}
+		case 3:
+			f.Tags = map[string][]string{vpSym1(name + ".tag"): {vpSym1(name + ".tagval")}}
+		}
+	}
+	switch vpChoice(name+".mode", 4) {
+	case 0:
+		f.Since = vpGenOptInt(name + ".since")
+		f.Until = vpGenOptInt(name + ".until")
+		f.Limit = vpGenOptInt(name + ".limit")
+	case 1:
+		sel(vpChoice(name+".sel", 4))
+		switch vpChoice(name+".extra", 3) {
+		case 1:
+			l := vpInt64(name + ".limit")
+			f.Limit = &l
+		case 2:
+			a, b := vpInt64(name+".since"), vpInt64(name+".until")
+			f.Since, f.Until = &a, &b
+		}
+	case 2:
+		switch vpChoice(name+".empty", 5) {
+		case 0:
+			f.IDs = []string{}
+		case 1:
+			f.Authors = []string{}
+		case 2:
+			f.Kinds = []int64{}
+		case 3:
+			f.Tags = map[string][]string{vpSym1(name + ".tag"): {}}
+		case 4:
+			f.Tags = map[string][]string{}
+		}
+	case 3:
+		pairs := [][2]int{{0, 1}, {1, 2}, {2, 3}, {1, 3}}
+		p := pairs[vpChoice(name+".pair", len(pairs))]
+		sel(p[0])
+		sel(p[1])
+		if vpChoice(name+".haslimit", 2) == 1 {
+			l := vpInt64(name + ".limit")
+			f.Limit = &l
+		}
+	}
+	return f
+}
